@@ -138,7 +138,10 @@ private:
     }
 
     ~node() override {
-      for (unsigned i = pop_idx; i < push_idx; i += step_size) {
+      // push_idx keeps growing beyond max_idx when producers find the node full; only indexes below
+      // max_idx refer to entries of this node.
+      const unsigned end = std::min<unsigned>(push_idx.load(std::memory_order_relaxed), max_idx);
+      for (unsigned i = pop_idx; i < end; i += step_size) {
         traits::delete_value(entries[i % entries_per_node].value.load(std::memory_order_relaxed).get());
       }
     }
